@@ -23,8 +23,8 @@ func init() {
 //
 // input : "cfg=<a><p><m> <METHOD> <route pattern> H-"             (no Authorization header)
 //         "cfg=<a><p><m> <METHOD> <route pattern> H=<template>"   (header present; the template is
-//          everything after "H=", verbatim, with $A = admin token, $U = an issued token, $R = a revoked
-//          token, $X = a never issued value)
+//          everything after "H=", verbatim, with $A = admin token, $U = an issued token, $R = a token that was
+//          issued, used successfully and then revoked, $X = a never issued value)
 //         a = use_auth, p = profiling endpoints, m = metrics; the route pattern is the one of
 //         engine.Routes() (parameters are instantiated by the harness).
 // obs   : "pass"                                   the request was not answered 401
@@ -134,7 +134,7 @@ type c09Cred struct{ hdr, class string } // hdr: "-" absent, "=<template>" prese
 
 var c09Creds = []c09Cred{
 	{"-", "none"}, {"=", "empty"},
-	{"=Bearer $A", "admin"}, {"=Bearer $U", "user"}, {"=Bearer $R", "revoked"}, {"=Bearer $X", "unknown"},
+	{"=Bearer $A", "admin"}, {"=Bearer $U", "user"}, {"=Bearer $R", "revoked"}, // $R: issued, used, then revoked {"=Bearer $X", "unknown"},
 	{"=Bearer $A$U", "unknown"}, {"=Bearer $U.", "unknown"},
 	{"=Bearer", "no-token"}, {"=Bearer ", "no-token"}, {"= ", "no-token"},
 	{"=Bearer  $U", "extra-parts"}, {"=Bearer $U ", "extra-parts"}, {"= Bearer $U", "extra-parts"},
@@ -220,8 +220,26 @@ func (e *c09Env) open(k c09Cfg, dir string) error {
 	if e.R, err = mk(); err != nil {
 		return err
 	}
-	if err := fs.Services.Tokens.DeleteToken(e.R); err != nil {
-		return fmt.Errorf("setup: DeleteToken: %v", err)
+	// the revoked credential is a token that was issued, USED successfully (on two API routes and on the
+	// token check the websocket connect handler performs) and only then revoked
+	used := 0
+	for _, path := range []string{"/api/v1/access", "/api/v1/chain/tip/longest"} {
+		if code, _ := fs.Do("GET", path, "", map[string]string{"Authorization": "Bearer " + e.R}); code == 200 {
+			used++
+		}
+	}
+	if _, err := fs.Services.Tokens.GetToken(e.R); err == nil {
+		used++
+	}
+	if k.auth && used != 3 {
+		return fmt.Errorf("setup: the token to be revoked did not authenticate before its revocation (%d of 3 uses)", used)
+	}
+	if code, _ := fs.Do("DELETE", "/api/v1/access/"+e.R, "", map[string]string{"Authorization": "Bearer " + e.A}); code != 200 {
+		// the API under test refused: revoke through the service layer so that the run can go on and show it
+		_ = fs.Services.Tokens.DeleteToken(e.R)
+	}
+	if _, err := fs.Repo.Tokens.GetTokenByValue(e.R); err == nil {
+		return fmt.Errorf("setup: revoked token still in the tokens table")
 	}
 	e.D, e.dTokens = "", ""
 	if e.U == e.R || e.U == e.A || e.R == e.A {
